@@ -20,37 +20,37 @@ PROP = {
     "assumptions": [],
 }
 
-KINDS_BAD = ["wrong-len", "wrong-len0", "wrong-len1", "wrong-len-double", "none", "int", "str", "ndarray", "foreign-track", "list"]
+KINDS_BAD = ["wrong-len", "wrong-len0", "wrong-len1", "wrong-len-double", "wrong-len+256", "wrong-len+65536", "none", "int", "str", "ndarray", "foreign-track", "list"]
 
 
 def make_track(t, n, label="t", seed=0):
-    H = specs.PLAIN_HINTS
-    vals = [specs.finite32(specs.mix(seed, i) >> 16) for i in range(n * 9)]
+    base = ((np.arange(n * 9, dtype=np.int64) * 2654435761 + seed * 40503) % 100003).astype("<f4") / 7.0
     if t == "data3D":
         from basictdf.tdfData3D import MarkerTrack
-        return MarkerTrack(label, specs.arr32(vals[:n * 3], (n, 3), H))
+        return MarkerTrack(label, base[:n * 3].reshape(n, 3).copy())
     if t == "force3D":
         from basictdf.tdfForce3D import ForceTorqueTrack
-        a = specs.arr32(vals[:n * 9], (n, 9), H)
+        a = base[:n * 9].reshape(n, 9)
         return ForceTorqueTrack(label, a[:, 0:3].copy(), a[:, 3:6].copy(), a[:, 6:9].copy())
     from basictdf.tdfEMG import EMGTrack
-    return EMGTrack(label, specs.arr32(vals[:n], (n,), H))
+    return EMGTrack(label, base[:n].copy())
 
 
 class Interp:
     def __init__(self, ctx, init):
         self.ctx, self.t, self.n = ctx, init["t"], init["n"]
         t = self.t
+        nf = {"py": self.n, "np32": np.int32(self.n), "np64": np.int64(self.n)}[init.get("ntype", "py")]
         one = np.ones(3, dtype="<f4")
         if t == "data3D":
             from basictdf.tdfData3D import Data3D
-            self.b = Data3D(100, self.n, one, np.eye(3, dtype="<f4"), one)
+            self.b = Data3D(100, nf, one, np.eye(3, dtype="<f4"), one)
         elif t == "force3D":
             from basictdf.tdfForce3D import ForceTorque3D
-            self.b = ForceTorque3D(100, self.n, one, np.eye(3, dtype="<f4"), one)
+            self.b = ForceTorque3D(100, nf, one, np.eye(3, dtype="<f4"), one)
         else:
             from basictdf.tdfEMG import EMG
-            self.b = EMG(1000, self.n)
+            self.b = EMG(1000, nf)
         self.model = []
         self.stats = {"refused-on-nonempty": 0, "refused": 0, "accepted": 0, "assign-ok": 0, "assign-refused-nonempty": 0}
         self.counter = 0
@@ -74,6 +74,8 @@ class Interp:
             return make_track(self.t, 1 if self.n != 1 else 2, "w1", self.counter), False
         if kind == "wrong-len-double":
             return make_track(self.t, self.n * 2, "w2", self.counter), False
+        if kind in ("wrong-len+256", "wrong-len+65536"):   # same length modulo 2**8 / 2**16
+            return make_track(self.t, self.n + (256 if kind.endswith("256") else 65536), "wm", self.counter), False
         if kind == "foreign-track":
             other = {"data3D": "emg", "force3D": "data3D", "emg": "force3D"}[self.t]
             return make_track(other, self.n, "f", self.counter), False
@@ -144,6 +146,13 @@ class Interp:
                 arg, all_valid, els = 5, False, []
             elif cont == "self":
                 arg, els, all_valid = self.b.tracks, list(self.model), True
+            elif cont == "object-array":
+                arg = np.empty(len(els), dtype=object)
+                for i_, e_ in enumerate(els):
+                    arg[i_] = e_
+            elif cont == "twice" and all_valid and els:
+                els = els + [els[0]]      # the same (valid) track object twice: exactly that list must be installed
+                arg = list(els)
             else:
                 arg = list(els)
             try:
@@ -183,7 +192,8 @@ def summarize(it, case):
 
 
 def inits(t):
-    return st.fixed_dictionaries({"t": st.just(t), "n": st.integers(1, 8), "tracks": st.integers(0, 3)})
+    return st.fixed_dictionaries({"t": st.just(t), "n": st.one_of(st.integers(1, 8), st.integers(1, 8), st.sampled_from([255, 256, 257, 1000])),
+                                  "tracks": st.integers(0, 3), "ntype": st.sampled_from(["py", "py", "np32", "np64"])})
 
 
 def ops(t):
@@ -193,7 +203,7 @@ def ops(t):
         return add
     elems = st.lists(st.sampled_from(["right"] * 6 + KINDS_BAD), max_size=6)
     assign = st.fixed_dictionaries({"op": st.just("assign"), "elems": elems,
-                                    "container": st.sampled_from(["list", "list", "tuple", "generator", "generator-raises", "non-iterable", "self"])})
+                                    "container": st.sampled_from(["list", "list", "tuple", "generator", "generator-raises", "non-iterable", "self", "object-array", "twice"])})
     return st.one_of(add, assign, assign)
 
 
